@@ -336,6 +336,53 @@ def stream_compute(ctx, nss, cfgmod, path):
             check_file(ctx, cfgmod, sim, cfg, path, "compute", (mode, sp, i))
 
 
+def stream_eventless(ctx, cfgmod, path):
+    """runs in which no trajectory is valid (a target that is never occulted during a short observation; zero thrown events) with a
+    NON-default configuration: the (empty) table still carries the configuration that produced the run"""
+    import dask
+    from nuspacesim.compute import compute
+    S = cfgmod.Simulation
+    rng = ctx.rng
+    found = 0
+    with dask.config.set(scheduler="synchronous"):
+        for k_, ra in enumerate(np.linspace(0.0, 6.0, 13)):
+            cfg = cfgmod.NssConfig()
+            cfg.title = "eventless run"
+            cfg.simulation.mode = "Target"
+            cfg.simulation.thrown_events = 40
+            cfg.simulation.target.source_RA = float(ra)
+            cfg.simulation.target.source_obst = 60.0
+            cfg.simulation.spectrum = S.PowerSpectrum(index=2.25, lower_bound=7.5, upper_bound=10.5)
+            cfg.simulation.cloud_model = S.MonoCloud(altitude=4.5)
+            cfg.detector.initial_position.altitude = 400.0
+            cfg.detector.optical.quantum_efficiency = 0.35
+            np.random.seed(3)
+            try:
+                sim = compute(cfg)
+            except Exception as e:  # noqa
+                ctx.notes.append(f"eventless probe: compute() raised {type(e).__name__} (not C16's subject)")
+                continue
+            if len(sim) == 0:
+                found += 1
+                ctx.case(("eventless", "Target", k_), None)
+                check_file(ctx, cfgmod, sim, cfg, path, "compute", ("eventless-target", k_))
+                break
+        cfg = cfgmod.NssConfig()
+        cfg.title = "nothing thrown"
+        cfg.simulation.thrown_events = 0
+        cfg.simulation.spectrum = S.MonoSpectrum(log_nu_energy=9.75)
+        cfg.detector.initial_position.altitude = 33.0
+        try:
+            sim = compute(cfg)
+            if len(sim) == 0:
+                found += 1
+                ctx.case(("eventless", "Diffuse", 0), None)
+                check_file(ctx, cfgmod, sim, cfg, path, "compute", ("eventless-diffuse",))
+        except Exception as e:  # noqa
+            ctx.notes.append(f"eventless probe (N=0): compute() raised {type(e).__name__} (not C16's subject)")
+    ctx.count("eventless_runs", found)
+
+
 def stream_synthetic(ctx, cfgmod, results_table, path):
     from astropy.time import Time
     rng = ctx.rng
@@ -441,6 +488,41 @@ def stream_boundary(ctx, cfgmod, results_table, path):
     one(("lonlat",), lambda c: (setattr(c.detector.initial_position, "latitude", 0.2), setattr(c.detector.initial_position, "longitude", 0.7)))
     one(("monocloud",), lambda c: setattr(c.simulation, "cloud_model", S.MonoCloud(altitude=3.5)))
     one(("pressure_map",), lambda c: setattr(c.simulation, "cloud_model", S.PressureMapCloud(month=7, version="v1")))
+    # every member of the spectrum / cloud-model unions as the MODEL declares them (not a list kept here), each with every numeric
+    # field moved off its default: a variant the reader's per-type key table does not fully know reloads with defaults
+    import typing
+
+    def members(field):
+        ann = S.model_fields[field].annotation
+        out_, todo = [], [ann]
+        while todo:
+            a_ = todo.pop()
+            args = typing.get_args(a_)
+            if args:
+                todo += [x_ for x_ in args if x_ is not type(None)]
+            elif isinstance(a_, type) and hasattr(a_, "model_fields"):
+                out_.append(a_)
+        return sorted(set(out_), key=lambda c_: c_.__name__)
+    for field in ("spectrum", "cloud_model"):
+        for cls_ in members(field):
+            kw = {}
+            for nm_, f_ in cls_.model_fields.items():
+                dv = f_.default
+                if nm_ == "id" or isinstance(dv, bool):
+                    continue
+                if isinstance(dv, float) and math.isfinite(dv):
+                    kw[nm_] = dv + 0.75 if "lower" in nm_ else (dv - 0.75 if "upper" in nm_ else (dv + 0.125 if dv else 0.125))
+                elif isinstance(dv, float):
+                    kw[nm_] = 4.25
+                elif isinstance(dv, int):
+                    kw[nm_] = dv + 1 if dv < 12 else dv - 1
+            try:
+                inst = cls_(**kw)
+            except Exception:  # noqa
+                ctx.count("union_member_not_constructible")
+                continue
+            ctx.count(f"union_member_{field}_{cls_.__name__}")
+            one(("union", field, cls_.__name__), lambda c, field=field, inst=inst: setattr(c.simulation, field, inst))
     # outside the property's domain: counted, the file must still be readable
     one(("unrepresentable", "monocloud-inf"), lambda c: setattr(c.simulation, "cloud_model", S.MonoCloud()))
     one(("unrepresentable", "trailing-blank"), lambda c: setattr(c, "title", "trailing  "), judge=False)
@@ -576,6 +658,7 @@ def run(ctx: Ctx):
     stream_configs(ctx, cfgmod, results_table, path, 5000 if ctx.thorough else 120)
     stream_synthetic(ctx, cfgmod, results_table, path)
     stream_compute(ctx, nss, cfgmod, path)
+    stream_eventless(ctx, cfgmod, path)
     stream_cli(ctx, nss, cfgmod, tmp)
 
 
